@@ -6,6 +6,7 @@ mod c14;
 mod exec;
 mod kinds;
 mod poll;
+mod req;
 
 use std::io::{BufRead, Write};
 use std::panic::{catch_unwind, AssertUnwindSafe};
@@ -19,6 +20,9 @@ fn run_line(line: &str) -> String {
         "C14" => c14::run(&ws[1..]),
         "POLL" => poll::run(&ws[1..]),
         "BOUNDS" => poll::bounds(),
+        "REQ" => req::run(&ws[1..]),
+        "URLINFO" => req::urlinfo(&ws[1..]),
+        "AUTHURL" => req::authurl(&ws[1..]),
         _ => proto::BAD.into(),
     }
 }
